@@ -66,7 +66,7 @@ def gen_topologies(rng, tier):
     out = []
     fixed = ["pack:2 [numa] core:2 pu:2", "pu:1", "pu:5", "numa:2 pack:1 core:3 pu:1", "group:2 [numa] group:2 pack:2 [numa] pu:2",
              "pack:3 l2:2 core:1 pu:3", "[numa] pack:2 die:2 [numa] l3:1 core:2 pu:1"]
-    nsyn = 40 if quick else 600
+    nsyn = 40 if quick else 250
     descs = fixed + [S.gen_synthetic(rng, max_pus=32 if quick else 64) for _ in range(nsyn)]
     for i, desc in enumerate(descs):
         out.append(("synthetic:" + desc, "synthetic", ["src synthetic " + desc, "load"]))
